@@ -3,3 +3,4 @@
 for p in $(python3 -c "import json;print(' '.join(c['property_id'] for c in json.load(open('/verif/MANIFEST.json'))['checks']))"); do
   /verif/bin/govc check --prop $p --tier ${1:-quick} "${@:2}" | tail -1
 done
+python3 /verif/tools/mkstatus.py >/dev/null
